@@ -625,7 +625,7 @@ def gen_reject_cases(rng):
 
 def gen_cases(tier, rng):
     """yields (name, par, array, route, kind, klass)"""
-    nrep = 2 if tier == "quick" else 4      # thorough: 4 repetitions over the larger shape list ~ 11 CPU-min (10 repetitions were 28 CPU-min, over the budget)
+    nrep = 2 if tier == "quick" else 3      # thorough: 3 repetitions over the larger shape list ~ 10 CPU-min + exact Print Assumptions (10 repetitions were 28 CPU-min, over the budget; 4 measured 12.5)
     shapes_q = [(1,), (2,), (3,), (5,), (8,), (1, 1), (4, 1), (1, 3), (3, 2), (5, 3)]
     shapes_t = shapes_q + [(4,), (6,), (7,), (12,), (2, 2), (6, 4), (9, 2), (2, 5)]
     mshapes_q = [(1, 1), (2, 2), (3, 2), (2, 3), (4, 4), (1, 3)]
@@ -1023,7 +1023,8 @@ _common_print_assumptions = C.print_assumptions
 def run(chk):
     rng = random.Random(chk.seed)
     merge_known()
-    C.print_assumptions = union_print_assumptions
+    # Print Assumptions: common.print_assumptions (one union question in the quick tier, exact per-theorem lists in the thorough tier or under
+    # VERIF_PA_EXACT=1, cached on the stamp of the compiled objects); the local union variant below is kept as a fallback helper only
     # (ProxProofsUniExact: exactness proof of the CANDIDATE repair of unimodality_prox, build/fix_candidates/C12_unimodality_exact.*; built and gated
     # with the property's files, not used by Props / Corr)
     chk.build_proofs(extra_targets=["theories/Proofs/ProxProofsUniExact.vo"])
@@ -1079,8 +1080,10 @@ def run(chk):
                        "tl.norm / tl.solve / tl.truncated_svd are oracles: the norm and the SVD enter the model as rational tape values checked against their contracts "
                        "(s*s = sum of squares; U diag(s) V = M, U^T U = V V^T = I), the solve through the exact certificate sm_apply t x = v on the model's own elimination",
                        "np.argsort tie order is unspecified: hard-thresholding outputs are compared up to the choice among entries of equal magnitude",
-                       "feasibility / idempotence of procrustes and firm non-expansiveness of svd_thresholding: the Coq theorems assume the EXACT contract of the SVD "
-                       "oracle while the per-case tape meets it to 1e-9 only; optimality of svd_thresholding and the maximisation clause of procrustes no longer do: "
+                       "the sharp statements of feasibility / idempotence of procrustes and firm non-expansiveness of svd_thresholding assume the EXACT contract of the SVD "
+                       "oracle while the per-case tape meets it to 1e-9 only (round 8: per-case certificates C12_procrustes_feasible / _nearest / _fixed_case_certified from the Boolean "
+                       "procrustes_feasible_ok evaluated on the model's output, and the relaxed inequality C12_svt_firm_case_certified, need no such assumption); "
+                       "optimality of svd_thresholding and the maximisation clause of procrustes do not assume it: "
                        "every case evaluates the Booleans svt_case_ok / procrustes_case_ok and the bounds svt_gap / procrustes_gap of C12_svt_case_certified / "
                        "C12_procrustes_case_certified in exact arithmetic (gap <= 1e-7 (t sum soft(s) + |M|^2 / 2), resp. <= 1e-7 sum s)",
                        "the dispatch table of proximal_operator is regenerated from the source by an ast translation on every run (corr:C12-static) and compared with "
